@@ -61,7 +61,7 @@ def run(ctx):
             rest = evs[:start] + evs[start + len(run_evs):]
             cur = ctx.work / f"sync-{b}-r{attempt}.ndjson"
             cur.write_text("".join(json.dumps(e) + "\n" for e in rest))
-        if st["parked_runs"] * 4 < st["schedules"]:
+        if not ctx.violations and st["parked_runs"] * 4 < st["schedules"]:
             raise vlib.ToolError(f"only {st['parked_runs']} of {st['schedules']} schedules had the waiter parked before a signaller ran: the wake-up part did not run as intended")
         total_sched += st["schedules"]
         ctx.coverage["traces_validated_against_impl"] += st["schedules"] - bad
